@@ -60,7 +60,7 @@ def make_topology(n_atoms, residue_size=3):
 
 
 def tagged_arrays(n_frames, n_atoms, cell, seed=0, origin=(0.0, 0.0, 0.0)):
-    """xyz (nm), time (ps), lengths (nm), angles (deg).  cell in {None,'ortho','tric'}."""
+    """xyz (nm), time (ps), lengths (nm), angles (deg).  cell in {None,'ortho','tric','mixed'}."""
     i = np.arange(n_frames, dtype=np.float64)[:, None]
     a = np.arange(n_atoms, dtype=np.float64)[None, :]
     r = np.random.RandomState(seed & 0x7FFFFFFF)
@@ -84,6 +84,13 @@ def tagged_arrays(n_frames, n_atoms, cell, seed=0, origin=(0.0, 0.0, 0.0)):
         A[:, 0] = 80.0 + 0.5 * (np.arange(n_frames) % 5)
         A[:, 1] = 95.0
         A[:, 2] = 100.0 - 0.5 * (np.arange(n_frames) % 4)
+        if cell == 'mixed':
+            # some frames orthorhombic, some triclinic (a box that starts rectangular and is then sheared)
+            # (own stream: frame k's kind must not depend on how many frames or atoms are generated)
+            rect = np.random.RandomState((seed ^ 0x5bd1e995) & 0x7FFFFFFF).uniform(size=n_frames) < 0.5
+            if n_frames and seed % 2 == 0:
+                rect[0] = True
+            A[rect] = 90.0
     return xyz, time, L, A
 
 
